@@ -58,34 +58,12 @@ def render(results, fmt, via, lang):
 
 
 def render_interrupted(results, fmt, via, lang, after):
-    """F10: the rendering is pre-empted after `after` line events inside the repository's code and a
-    KeyboardInterrupt is delivered there (what Ctrl-C or a signal-driven timeout does at an arbitrary
-    instant).  returns ('interrupted', after) or, when the rendering finished earlier, its result"""
-    import sys
-    from depsim import env
-    root = env.repo_root().rstrip('/') + '/depccg/'
-    count = [0]
-
-    def local(frame, event, arg):
-        if event == 'line':
-            count[0] += 1
-            if count[0] == after:
-                raise KeyboardInterrupt()
-        return local
-
-    def glob(frame, event, arg):
-        if event == 'call' and frame.f_code.co_filename.startswith(root) and count[0] < after:
-            return local
-        return None
-
-    old = sys.gettrace()
-    sys.settrace(glob)
-    try:
-        return render(results, fmt, via, lang)
-    except KeyboardInterrupt:
-        return ('interrupted', after)
-    finally:
-        sys.settrace(old)
+    """F10 (depsim.faults): the rendering is pre-empted after `after` line events inside the repository's
+    code and receives KeyboardInterrupt.  returns ('interrupted', after) or, when the rendering finished
+    earlier, its result"""
+    from depsim import faults
+    hit, value = faults.run_interrupted(lambda: render(results, fmt, via, lang), after)
+    return ('interrupted', after) if hit else value
 
 
 class ReferenceRenderer(object):
